@@ -250,8 +250,8 @@ where
 
         // Convert right to negative notation and trim.
         // Offset to have inclusive behavior.
-        if right > 0 && right < len {
-            r = (right - len + 1).unsigned_abs();
+        if right >= 0 && right < len {
+            r = (len - 1 - right) as usize;
         } else if right < 0 && right.abs() <= len {
             r = (right.abs() - 1).unsigned_abs();
         } else if right < 0 {
@@ -259,14 +259,6 @@ where
         }
         if r > 0 {
             (&mut self).rev().nth(r - 1);
-        }
-
-        // Get first or last
-        if left == 0 && right == 0 {
-            let i = len - 2;
-            if i > 0 {
-                (&mut self).rev().nth(i as usize);
-            }
         }
 
         self
